@@ -55,6 +55,17 @@ type Machine struct {
 // NewMachine prepares globals and opens a store on fs (a fresh memfs if nil).
 func NewMachine(s *vsched.Sched, cfg *store.VerifCfg, fs *vos.FS) *Machine {
 	m := &Machine{Cfg: cfg, S: s}
+	if s.Free() {
+		// free-running -race pass: real goroutines, real files, real time
+		c2 := *cfg
+		c2.Home = fmt.Sprintf("/dev/shm/verif-race-%d/db", os.Getpid())
+		os.RemoveAll(c2.Home)
+		m.Cfg = &c2
+		vos.Detach()
+		vtime.Disable()
+		m.Open()
+		return m
+	}
 	fresh := fs == nil
 	if fs == nil {
 		fs = vos.New()
